@@ -243,6 +243,86 @@ func init() {
 		f.With(comps(op.Rem[:1]))
 		d.Maps[op.Rem[0]].SetRelationBatch(f.Batch(nil), aux, nil)
 	})
+	// ---- calls guarded only by the debug build (C20): each row is the documented misuse pattern
+	// observed as one call (access + dereference), and must panic in every build configuration.
+	// op.Rem[0] is a component the entity lacks.
+	addMisuse("debugguard", "Query1.Get+deref after exhaustion", func(d *Drv, op *Op, h, _ ecs.Entity) {
+		q := ecs.NewFilter1[u.P8](d.W).Query()
+		defer q.Close()
+		for q.Next() {
+		}
+		p := q.Get()
+		sink = p.V
+	})
+	addMisuse("debugguard", "Query1.Entity after exhaustion", func(d *Drv, op *Op, h, _ ecs.Entity) {
+		q := ecs.NewFilter1[u.P8](d.W).Query()
+		defer q.Close()
+		for q.Next() {
+		}
+		sink = int64(q.Entity().ID())
+	})
+	addMisuse("debugguard", "Query1.Next after exhaustion", func(d *Drv, op *Op, h, _ ecs.Entity) {
+		q := ecs.NewFilter1[u.P8](d.W).Query()
+		defer q.Close()
+		for q.Next() {
+		}
+		q.Next()
+	})
+	addMisuse("debugguard", "Query1.Get+deref before Next", func(d *Drv, op *Op, h, _ ecs.Entity) {
+		q := ecs.NewFilter1[u.P8](d.W).Query()
+		defer q.Close()
+		p := q.Get()
+		sink = p.V
+	})
+	addMisuse("debugguard", "Query1.Entity before Next", func(d *Drv, op *Op, h, _ ecs.Entity) {
+		q := ecs.NewFilter1[u.P8](d.W).Query()
+		defer q.Close()
+		sink = int64(q.Entity().ID())
+	})
+	addMisuse("debugguard", "Query0.Next+Entity after Close", func(d *Drv, op *Op, h, _ ecs.Entity) {
+		q := ecs.NewFilter0(d.W).Query()
+		defer q.Close()
+		q.Next()
+		q.Close()
+		q.Next()
+		sink = int64(q.Entity().ID())
+	})
+	addMisuse("debugguard", "UnsafeQuery.Next+Get after Close", func(d *Drv, op *Op, h, _ ecs.Entity) {
+		q := ecs.NewUnsafeFilter(d.W, d.ids(op.Add)...).Query()
+		defer q.Close()
+		q.Next()
+		q.Close()
+		q.Next()
+		sink = int64(uintptr(q.Get(d.ID[op.Add[0]])))
+	})
+	addMisuse("debugguard", "UnsafeQuery.Entity before Next", func(d *Drv, op *Op, h, _ ecs.Entity) {
+		q := ecs.NewUnsafeFilter(d.W).Query()
+		defer q.Close()
+		sink = int64(q.Entity().ID())
+	})
+	addMisuse("debugguard", "UnsafeQuery.Get missing component", func(d *Drv, op *Op, h, _ ecs.Entity) {
+		q := ecs.NewUnsafeFilter(d.W, d.ids(op.Add)...).Exclusive().Query()
+		defer q.Close()
+		for q.Next() {
+			sink = int64(uintptr(q.Get(d.ID[op.Rem[0]])))
+		}
+		panic("no entity visited") // the victim entity matches its own exclusive composition
+	})
+	addMisuse("debugguard", "Query1.EntityAt out of range", func(d *Drv, op *Op, h, _ ecs.Entity) {
+		q := ecs.NewFilter1[u.P8](d.W).Query()
+		defer q.Close()
+		q.EntityAt(q.Count())
+	})
+	addMisuse("debugguard", "Map.Set missing component", func(d *Drv, op *Op, h, _ ecs.Entity) { d.Maps[op.Rem[0]].Set(h, 5) })
+	addMisuse("debugguard", "Unsafe.Get missing component", func(d *Drv, op *Op, h, _ ecs.Entity) {
+		sink = int64(uintptr(d.U.Get(h, d.ID[op.Rem[0]])))
+	})
+	addMisuse("debugguard", "Unsafe.GetRelation missing component", func(d *Drv, op *Op, h, _ ecs.Entity) {
+		d.U.GetRelation(h, d.ID[u.RelIdx[op.N%3]])
+	})
+	addMisuse("debugguard", "Map.GetRelation missing component", func(d *Drv, op *Op, h, _ ecs.Entity) {
+		d.Maps[u.RelIdx[op.N%3]].GetRelation(h)
+	})
 	// ---- structural operations on a locked world (h is an alive entity; the generator only picks these while a query is open)
 	lockedOps := map[string]func(d *Drv, op *Op, h, aux ecs.Entity){
 		"World.NewEntity":    func(d *Drv, op *Op, h, _ ecs.Entity) { d.W.NewEntity() },
@@ -389,6 +469,8 @@ func (d *Drv) misuse(op *Op) {
 	d.Stat.Misuse[mc.Name+"/"+staleNames[op.Sub%NStale]]++
 	mc.Run(d, op, h, aux)
 }
+
+var sink int64
 
 // skipMisuse is the panic value used when a misuse row is not applicable in the current state.
 type skipMisuse struct{}
